@@ -199,6 +199,13 @@ def canon_xml_sorted(out):
     return ET.tostring(root)
 
 
+COMPARATOR_FP = ("C19:commodity.cc:compare_by_commodity",
+                 "the same lots in a different order: the lots of one balance are listed in unordered_map order, i.e. "
+                 "commodity_t::compare_by_commodity (commodity.cc:389-520) does not order them totally, so balance_t::sorted_amounts "
+                 "(balance.cc:273-283) keeps the hash order for them")
+LOT_TOKEN = re.compile(rb"-?[0-9][0-9,.]* [^\s{}\[\]()]+(?: \{[^}]*\})?(?: \[[^\]]*\])?(?: \([^()]*\))?")
+
+
 def localise(args, jpath, ea, eb, oa, ob):
     """(fingerprint, explanation) for two differing observations of the same command."""
     if oa["rc"] is None or ob["rc"] is None:
@@ -208,6 +215,9 @@ def localise(args, jpath, ea, eb, oa, ob):
     cmd = args[0]
     if cmd == "xml":
         ca, cb = canon_xml_sorted(oa["out"]), canon_xml_sorted(ob["out"])
+        if ca is not None and ca == cb and oa["err"] == ob["err"] and oa["rc"] == ob["rc"] \
+                and gen_flags().get("putBalanceSorted") == "true" and b"<annotation>" in oa["out"]:
+            return COMPARATOR_FP           # put_balance walks sorted_amounts: a reordering of lots is the comparator's
         if ca is not None and ca == cb and oa["err"] == ob["err"] and oa["rc"] == ob["rc"]:
             return ("C19:balance.cc:put_balance",
                     "ledger xml lists the <amount> elements of a multi-commodity <balance> in unordered_map order "
@@ -230,6 +240,10 @@ def localise(args, jpath, ea, eb, oa, ob):
                 "the same amount is printed rounded in one environment and unrounded in the other: balance_t::strip_annotations "
                 "(balance.cc:263-271, used by scrub in every default format) merges the lots of one commodity in unordered_map order and "
                 "the merged amount keeps the keep_precision flag of the first lot")
+    if sorted(canon(args, oa).split(b"\n")) == sorted(canon(args, ob).split(b"\n")) and oa["err"] == ob["err"] and oa["rc"] == ob["rc"] \
+            and any(x in args for x in ("--lots", "--lot-prices", "--lot-dates", "--lot-notes", "print", "xml", "equity")) \
+            and (b"{" in oa["out"] or b"<annotation>" in oa["out"]):
+        return COMPARATOR_FP
     if "--average-lot-prices" in args and b"Adding amounts with different commodities" in oa["err"] + ob["err"]:
         return ("C19:balance.cc:average_lot_prices",
                 "average_lot_prices adds the lot prices of one symbol in unordered_map order; when they are in different commodities "
@@ -243,6 +257,16 @@ def localise(args, jpath, ea, eb, oa, ob):
             return ("C19:value.cc:lt-balance",
                     "balance < amount walks the unordered_map and stops at the first deciding component, so it answers or throws "
                     "'different commodities' depending on hash order (value.cc:965-975 is_less_than, BALANCE row)")
+    if cmd in ("bal", "balance", "equity", "print") and oa["err"] == ob["err"] and oa["rc"] == ob["rc"] \
+            and (b"{" in oa["out"] or b" [" in oa["out"] or b" (" in oa["out"]) \
+            and sorted(LOT_TOKEN.findall(oa["out"])) == sorted(LOT_TOKEN.findall(ob["out"])):
+        return COMPARATOR_FP
+    if jpath and (b"{" in oa["out"] or b" [" in oa["out"] or b"<annotation>" in oa["out"]):
+        # lots are involved: probe the plainest lot listing under the same two environments
+        pa = observe(["bal", "--lots", "--flat", "--no-total"], ea, jpath)
+        pb = observe(["bal", "--lots", "--flat", "--no-total"], eb, jpath)
+        if pa["out"] != pb["out"] and sorted(LOT_TOKEN.findall(pa["out"])) == sorted(LOT_TOKEN.findall(pb["out"])):
+            return COMPARATOR_FP
     return "C19:other:" + cmd, "outputs differ between two environments and the difference is not one of the known container leaks"
 
 
@@ -457,6 +481,98 @@ def lots_journal(rng):
         lines.append("    Assets:Cash")
         lines.append("")
     return "\n".join(lines) + "\n"
+
+
+def lot_heavy_journal(rng, with_exprs=False):
+    """One account accumulating 4-10 lots of ONE commodity whose annotations combine few prices, few dates and
+    no / one of two tags, always including pairs that are equal in price and date and differ only in the presence
+    of a (tag), in the presence of a [date] or of the {price} - the pairs on which a comparator that is not
+    antisymmetric leaves the order to the hash map.  Returns (text, [lot dicts in journal order])."""
+    sym = rng.choice(["AAA", "BTC", "VTI"])
+    prices = rng.sample([1, 2, 5, 7, 12], rng.randint(1, 3))
+    dates = rng.sample([jgen.day_of(2020, 1, 1), jgen.day_of(2020, 1, 2), jgen.day_of(2020, 3, 15)], rng.randint(1, 2))
+    lots, seen = [], set()
+
+    def add(price, date, tag, expr=None):
+        k = (price, date, tag, expr)
+        if k in seen or (price is None and date is None and tag is None and expr is None):
+            return
+        seen.add(k)
+        lots.append({"price": price, "date": date, "tag": tag, "expr": expr})
+    # the pairs
+    for _ in range(rng.randint(2, 4)):
+        p, d = rng.choice(prices), rng.choice(dates)
+        kind = rng.choice(["tag", "tag", "tag", "date", "price"])
+        if kind == "tag":
+            add(p, d, None)
+            add(p, d, rng.choice(["t", "u"]))
+        elif kind == "date":
+            t = rng.choice([None, "t"])
+            add(p, None, t)
+            add(p, d, t)
+        else:
+            t = rng.choice([None, "t"])
+            add(None, d, t)
+            add(p, d, t)
+    while len(lots) < rng.randint(4, 10):
+        add(rng.choice(prices + [None]), rng.choice(dates + [None]), rng.choice([None, None, "t", "u"]),
+            rng.choice([None, "amount * 2", "amount * 3"]) if with_exprs else None)
+    rng.shuffle(lots)
+    lines = ["%s buy lots" % jgen.date_text(jgen.day_of(2020, 4, 1))]
+    for i, l in enumerate(lots):
+        q = rng.randint(1, 9)
+        l["q"] = q
+        a = "%d %s" % (q, sym)
+        if l["price"] is not None:
+            a += " {$%d.00}" % l["price"]
+        if l["date"] is not None:
+            a += " [%s]" % jgen.date_text(l["date"])
+        if l["tag"] is not None:
+            a += " (%s)" % l["tag"]
+        if l["expr"] is not None:
+            a += " ((%s))" % l["expr"]
+        lines.append("    Assets:Broker   %s" % a)
+    lines += ["    Equity:Opening", "", "%s other" % jgen.date_text(jgen.day_of(2020, 5, 1)), "    Assets:Cash   10.00 EUR", "    Income:Job", ""]
+    return "\n".join(lines) + "\n", lots, sym
+
+
+LOT_COMMANDS = ["bal --lots", "bal --lot-prices", "bal --lot-dates --lot-notes", "reg --lots", "reg --lots --wide", "print", "xml",
+                "equity --lots", "bal --lots --flat", "bal"]
+
+LOT_LINE = re.compile(r"^\s*(-?[0-9][0-9,.]*) (\S+)(?: \{\$([0-9.,]+)\})?(?: \[(\d{4}/\d\d/\d\d)\])?(?: \(([^()]*)\))?(?: \(\((.*)\)\))?\s*$")
+
+
+def lot_order_oracle(ctx, sweep, jtext, lots, sym):
+    """Implementation-side oracle, independent of the Lean model: `bal --lots` of the account lists the lots in
+    THE order of compare_by_commodity re-stated in Python (price absent < present, by price; date absent < present,
+    by date; tag absent < present, by tag) - a total order, so any other order shows a comparator that is not one."""
+    if any(l["expr"] for l in lots):
+        return
+    args = ["bal", "--lots", "Assets:Broker", "--no-total", "--format", "%(display_total)\n"]
+    o = observe(args, sweep.envs[0], sweep.path_for(jtext))
+    ctx.count()
+    got = []
+    for line in o["out"].decode("utf-8", "replace").split("\n"):
+        m = LOT_LINE.match(line)
+        if m and m.group(2) == sym:
+            got.append((Fraction(m.group(3).replace(",", "")) if m.group(3) else None, m.group(4), m.group(5)))
+
+    def key(l):
+        p, d, t = l
+        return ((0,) if p is None else (1, p), (0,) if d is None else (1, d), (0,) if t is None else (1, t))
+    want = sorted(((Fraction(l["price"]) if l["price"] is not None else None,
+                    jgen.date_text(l["date"]) if l["date"] is not None else None, l["tag"]) for l in lots), key=key)
+    if sorted(got, key=key) != want:
+        ctx.feature("lots:unparsed")           # the reader of this oracle did not understand the output: no verdict
+        return
+    ctx.traces_validated += 1
+    if got != want:
+        ctx.violation("C19:commodity.cc:compare_by_commodity",
+                      "the lots of one balance are not printed in the total order of compare_by_commodity (symbol, price, date, tag; "
+                      "absent before present): sorted_amounts leaves them in unordered_map order wherever the comparator is not a "
+                      "strict weak order",
+                      {"kind": "single", "journal": jtext, "args": args, "stdout": text(o["out"]),
+                       "printed": [str(x) for x in got], "expected": [str(x) for x in want]})
 
 
 def zero_top_journal(rng):
@@ -979,7 +1095,8 @@ def run(tier, seed):
     ctx.mism = []
     ctx.rule = ("case = (journal, command) or eval expression, executed under every environment (ASLR on/off, MALLOC_PERTURB_, mmap "
                 "threshold 0/256, arena/top-pad, tcache/fastbin off, 6 KB padded env, env -i, cwd / and a deep directory); journals from "
-                "tools/jgen.py with 3-9 commodities and account trees, lot journals, zero-top two-commodity transactions, malformed "
+                "tools/jgen.py with 3-9 commodities and account trees, lot journals, lot-heavy journals (one account holding 4-10 lots of one "
+                "commodity incl. pairs differing only in the presence of a tag/date/price), zero-top two-commodity transactions, malformed "
                 "files; non-trivial = the journal has >= 3 commodities and the command printed something, or the expression has a "
                 "balance of >= 2 (cmp) / >= 3 (print, top_amount) commodities; distinct by (journal text, command)")
     ctx.assumptions = ["glibc malloc tunables and setarch -R really change the process layout (measured: the known leaks flip under them)",
@@ -1057,6 +1174,19 @@ def run(tier, seed):
                     ctx.feature("cmd:" + " ".join(case[1][:3]))
                     if o["rc"] not in (0, None):
                         ctx.feature("rc!=0")
+        # 3b. lot-heavy journals: one balance holding many lots of one commodity, every lot command, every environment
+        nlot = (3 if not thorough else 20) * (2 if search else 1)
+        lcmds = [c.split() for c in LOT_COMMANDS]
+        for li in range(nlot):
+            jt, lots, sym = lot_heavy_journal(rng, with_exprs=(thorough and li % 4 == 3))
+            lcases = [(jt, c, {"commodities": len(lots), "lots": True}) for c in lcmds]
+            for case, ob in zip(lcases, sweep.run_cases(lcases)):
+                sweep.judge(case, ob, shrinker=None)
+                if ob[envs[0]["name"]]["out"].strip():
+                    ctx.nontrivial((case[0], tuple(case[1])))
+                ctx.feature("lotcmd:" + " ".join(case[1][:3]))
+            lot_order_oracle(ctx, sweep, jt, lots, sym)
+            ctx.feature("lots:n=%d" % len(lots))
         # 4. malformed stream: errors must be as deterministic as reports
         mcases = [(m, c, {"malformed": True}) for m in MALFORMED for c in (["bal"], ["print"], ["reg", "--collapse"])]
         obs = sweep.run_cases(mcases)
